@@ -26,7 +26,7 @@ SHARD_BYTES = 120_000
 COQ_HEADER = """From Coq Require Import List PrimFloat String.
 From LaPyV Require Import Base.Scalar Base.Vec3 Base.ListAux Base.Sparse Model.TetMesh Model.TriaAdj Model.Fem Model.Flow Chk.Cmp Chk.C09 Chk.C19.
 Import ListNotations. Open Scope float_scope."""
-COQ_CHECK = "check_c19"
+COQ_CHECK = "check_c19_multi"
 COQ_LABELS = ["solver_answers_satisfy_flow_system", "stopping_rule", "returned_vertices", "connectivity", "projection_and_gates"]
 
 
@@ -161,12 +161,20 @@ def run_impl(case):
         v0, t0 = m.v.copy(), m.t.copy()
         rec = {}
         orig = diffgeo.tria_mean_curvature_flow
+        orig_eigs = diffgeo.Solver.eigs
 
         def wrapped(tr, *a, **k):
+            rec["vn_in"] = np.asarray(tr.v, dtype=float).copy()
             r = orig(tr, *a, **k)
             rec["vn"] = np.asarray(r.v, dtype=float).copy()
             return r
+
+        def wrapped_eigs(self, *a, **k):
+            w, V = orig_eigs(self, *a, **k)
+            rec["evecs"] = np.asarray(V, dtype=float).copy()
+            return w, V
         diffgeo.tria_mean_curvature_flow = wrapped
+        diffgeo.Solver.eigs = wrapped_eigs
         try:
             with contextlib.redirect_stdout(sink):
                 r = diffgeo.tria_spherical_project(m, flow_iter=case["project"]["flow_iter"])
@@ -177,8 +185,13 @@ def run_impl(case):
             out["perror"] = core.errkind(e) + ":" + str(e)[:120]
         finally:
             diffgeo.tria_mean_curvature_flow = orig
+            diffgeo.Solver.eigs = orig_eigs
         if "vn" in rec:
             out["vn"] = rec["vn"].tolist()
+        if "vn_in" in rec:
+            out["vn_in"] = rec["vn_in"].tolist()
+        if "evecs" in rec:
+            out["evecs"] = rec["evecs"][:, 1:4].T.tolist()
         mm = re.search(r"spat vol: ([0-9.eE+-]+|nan|inf)", sink.getvalue())
         if mm:
             out["spatvol"] = float(mm.group(1))
@@ -195,19 +208,33 @@ def coq_case(case, out):
         if "error" in out:
             return None
         Xs = "[" + "; ".join(core.cv3list(x) for x in out["Xs"]) + "]"
-        return "(CFlow %s %s %s %d%%nat %s %s %s %s %s)" % (
+        return "[CFlow %s %s %s %d%%nat %s %s %s %s %s]" % (
             tol, core.cv3list(np.array(case["v"], dtype=float).astype(case["vdtype"]).astype(float).tolist()), core.ctuples(case["t"]),
             case["max_iter"], core.cfloat(case["stop_eps"]), core.cfloat(case["step"]), Xs, core.cv3list(out["v"]), core.ctuples(out["t"]))
-    if "vn" not in out or "spatvol" not in out:
+    parts = []
+    v64 = np.array(case["v"], dtype=float).astype(case["vdtype"]).astype(float).tolist()
+    if "evecs" in out and out["in_closed"]:
+        e1, e2, e3 = out["evecs"]
+        if "vn_in" in out and "spatvol" in out:
+            obs = "(Ok (%s, %s))" % (core.cv3list(out["vn_in"]), core.cfloat(out["spatvol"]))
+        elif "spatvol" not in out and out.get("perror", "").startswith("ValueError:Direction 1"):
+            obs = "(Err ValueError)"
+        else:
+            obs = None          # flow_iter = 0: the embedding is not observable separately
+        if obs is not None:
+            parts.append("CEmbed %s %s %s %s %s %s" % (tol, core.cv3list(v64), core.cflist(e1), core.cflist(e2), core.cflist(e3), obs))
+    if "vn" in out and "spatvol" in out:
+        if "pv" in out:
+            obs = "(Ok %s)" % core.cv3list(out["pv"])
+        elif out["perror"].startswith("ValueError"):
+            obs = "(Err ValueError)"
+        else:
+            obs = "(Err OtherError)"
+        parts.append("CProj %s %s %s %s %s %s" % (tol, core.ctuples(case["t"]), core.cfloat(4.0 * math.pi * 10000), core.cfloat(out["spatvol"]),
+                                                 core.cv3list(out["vn"]), obs))
+    if not parts:
         return None
-    if "pv" in out:
-        obs = "(Ok %s)" % core.cv3list(out["pv"])
-    elif out["perror"].startswith("ValueError"):
-        obs = "(Err ValueError)"
-    else:
-        obs = "(Err OtherError)"
-    return "(CProj %s %s %s %s %s %s)" % (tol, core.ctuples(case["t"]), core.cfloat(4.0 * math.pi * 10000), core.cfloat(out["spatvol"]),
-                                         core.cv3list(out["vn"]), obs)
+    return "[" + "; ".join(parts) + "]"
 
 
 # ---------------------------------------------------------------------- reference (dense, independent of the recorded answers)
